@@ -314,5 +314,9 @@ def run(ctx):
     # ---------------------------------------------------------------- C10.ARGS
     from ..rules_common import check_call_arguments
     check_call_arguments(ctx, "C10.ARGS", "C10")
+    from ..rules_common import check_effect_tables
+    check_effect_tables(ctx, "C10")
+    from ..rules_common import check_presence_tests, ARG_SCOPE
+    check_presence_tests(ctx, "C10.PRESENCE", classes=ARG_SCOPE.get("C10", []))
 
 
